@@ -360,6 +360,15 @@ def kkt_point(w, norms, prefix='kkt'):
   return xs, conds
 
 
+def _slice_sym(n, free):
+  if not free:
+    return sym.symbolic('w', (n, 1))
+  w = sym.full((n, 1), 0)
+  for i in free:
+    w[i, 0] = z3.Real('w_%d_0' % i)
+  return w
+
+
 def load_thresholds():
   if os.path.exists(THRESH_FILE):
     with open(THRESH_FILE) as f:
@@ -383,7 +392,7 @@ def case_convergence(**p):
     tr = Traced(lambda w: ll.project_by_dykstra(w, sizes, num_iterations=N, **fam), [tf.TensorSpec([n, 1], tf.float32)],
                 name='project_by_dykstra')
     sym.new_ctx()
-    w = sym.symbolic('w', (n, 1))
+    w = _slice_sym(n, p.get('free'))
     (out,) = tr.sym_run(w)
     case.meta['ops'] = tr.ops_seen
     boxc = core.box(w, -1, 1)
@@ -415,7 +424,7 @@ def case_convergence(**p):
                                 **{k: v for k, v in fam.items() if k not in ()})
     tr = Traced(lambda w: con(w), [tf.TensorSpec([n, 1], tf.float32)], name='LatticeConstraints')
     sym.new_ctx()
-    w = sym.symbolic('w', (n, 1))
+    w = _slice_sym(n, p.get('free'))
     (out,) = tr.sym_run(w)
     xs, kk = kkt_point(list(w.reshape(-1)), norms)
     far = core.far_arrays(out.reshape(-1), np.array(xs, dtype=object), tau)
@@ -579,11 +588,18 @@ CONV = [
     dict(tag='rdom22', sizes=[2, 2], mono=[1, 1], rdom=[[0, 1]], nearest=False),
     dict(tag='combo22', sizes=[2, 2], mono=[1, 1], edge=[[0, 1, 1]], trap=[[0, 1, 1]]),
     # several constraints of the same family (distinct roll-back slots must not be shared)
-    dict(tag='trap2s', sizes=[2, 2, 2], mono=[1, 1, 0], trap=[[0, 2, 1], [1, 2, 1]]),
-    dict(tag='edge2', sizes=[2, 2, 2], mono=[1, 1, 0], edge=[[0, 2, 1], [1, 2, -1]]),
-    dict(tag='mdom2', sizes=[2, 2, 2], mono=[1, 1, 1], mdom=[[0, 1], [1, 2]]),
-    dict(tag='jmono2', sizes=[2, 2, 2], jmono=[[0, 1], [1, 2]]),
 ]
+# 8-weight lattices: the kernel is symbolic on a 4-coordinate slice (the other weights are 0), N in {2,4}
+SLICES = [[0, 2, 4, 6], [1, 3, 5, 7], [0, 1, 2, 3], [0, 3, 5, 6]]
+for _t, _f in (('trap2s', dict(sizes=[2, 2, 2], mono=[1, 1, 0], trap=[[0, 2, 1], [1, 2, 1]])),
+               ('edge2', dict(sizes=[2, 2, 2], mono=[1, 1, 0], edge=[[0, 2, 1], [1, 2, -1]])),
+               ('mdom2', dict(sizes=[2, 2, 2], mono=[1, 1, 1], mdom=[[0, 1], [1, 2]])),
+               ('jmono2', dict(sizes=[2, 2, 2], jmono=[[0, 1], [1, 2]])),
+               ('mono222', dict(sizes=[2, 2, 2], mono=[1, 1, 1])),
+               ('mono33', dict(sizes=[3, 3], mono=[1, 1]))):
+  for _s in SLICES:
+    CONV.append(dict(_f, tag='%s@%s' % (_t, ''.join(map(str, _s))), free=_s, slice_iters=[2, 4]))
+
 
 
 def cases(tier, seed):
@@ -608,6 +624,8 @@ def cases(tier, seed):
     if not th:
       continue
     iters = [1, 2, 4, 8] if tier == 'quick' else [1, 2, 4, 8, 16]
+    if f.get('slice_iters'):
+      iters = f.pop('slice_iters')
     for N in iters:
       nm = 'conv-%s-N%d' % (tag, N)
       out.append(dict(name=nm, fn='case_convergence',
